@@ -30,7 +30,7 @@ def run_engine(schema, base_url: str, run: dict) -> dict:
     from schemathesis.generation import GenerationConfig, GenerationMode
     from urllib.parse import urlsplit
 
-    settings = hypothesis.settings(max_examples=run["max_examples"], database=None, deadline=None,
+    settings = hypothesis.settings(max_examples=run["max_examples"], database=None, deadline=None, derandomize=bool(run.get("deterministic")),
                                    suppress_health_check=list(HealthCheck), stateful_step_count=run.get("steps", 6))
     config = EngineConfig(execution=ExecutionConfig(
         phases=[PhaseName.from_str(p) for p in run["phases"]],
@@ -43,6 +43,7 @@ def run_engine(schema, base_url: str, run: dict) -> dict:
     failures = set()
     n = 0
     marker(base_url, event="run-start", tag=run["tag"])
+    force_schedule(run)
     for ev in from_schema(schema, config=config).execute():
         n += 1
         if isinstance(ev, events.PhaseStarted):
@@ -70,6 +71,52 @@ def run_engine(schema, base_url: str, run: dict) -> dict:
     return {"tag": run["tag"], "failures": sorted(failures), "events": n}
 
 
+class Rendezvous:
+    """Every one of `n` threads waits here until all have arrived (or `timeout` passed since it arrived)."""
+
+    def __init__(self, n: int, timeout: float):
+        import threading
+
+        self.n, self.timeout, self.count, self.generation, self.cond = n, timeout, 0, 0, threading.Condition()
+
+    def meet(self) -> None:
+        with self.cond:
+            generation = self.generation
+            self.count += 1
+            if self.count >= self.n:
+                self.count, self.generation = 0, self.generation + 1
+                self.cond.notify_all()
+                return
+            self.cond.wait_for(lambda: self.generation != generation, self.timeout)
+            if self.generation == generation:       # not everybody came (fewer operations than workers are left): let this round go
+                self.count, self.generation = 0, self.generation + 1
+                self.cond.notify_all()
+
+
+_ORIGINAL_SETUP = []
+
+
+def force_schedule(run: dict) -> None:
+    """Derandomised multi-worker runs are executed under the schedule that refutes the shared-slot model of spec/ReproDigest.tla:
+    every worker has prepared its operation (written the digest) before any worker starts its test (reads it).  Harness side only:
+    the engine's `setup_hypothesis_database_key` is followed by a rendezvous; nothing of the engine's state is touched."""
+    from schemathesis.engine.phases.unit import _executor
+
+    if not _ORIGINAL_SETUP:
+        _ORIGINAL_SETUP.append(_executor.setup_hypothesis_database_key)
+    original = _ORIGINAL_SETUP[0]
+    if not run.get("deterministic") or run["workers"] < 2:
+        _executor.setup_hypothesis_database_key = original
+        return
+    rendezvous = Rendezvous(run["workers"], 0.5)
+
+    def setup_then_meet(test, operation):
+        original(test, operation)
+        rendezvous.meet()
+
+    _executor.setup_hypothesis_database_key = setup_then_meet
+
+
 def run_cli(schema_path: str, base_url: str, run: dict) -> dict:
     """The CLI front door: `schemathesis run <file> --url ... --seed N ...` executed in this process (so that the two harness-side
     normalisations apply); one phase per invocation, so the whole log of the run belongs to that phase."""
@@ -80,9 +127,11 @@ def run_cli(schema_path: str, base_url: str, run: dict) -> dict:
 
     assert len(run["phases"]) == 1
     phase = {"examples": "EXAMPLES", "coverage": "COVERAGE", "fuzzing": "FUZZING", "stateful": "STATEFUL_TESTING"}[run["phases"][0]]
-    args = ["run", schema_path, "--url", base_url, "--phases", run["phases"][0], "--seed", str(run["seed"]), "-n", str(run["max_examples"]),
+    seed_args = ["--generation-deterministic"] if run.get("deterministic") else ["--seed", str(run["seed"])]
+    force_schedule(run)
+    args = ["run", schema_path, "--url", base_url, "--phases", run["phases"][0], *seed_args, "-n", str(run["max_examples"]),
             "-w", str(run["workers"]), "-m", "all" if len(run["modes"]) == 2 else run["modes"][0], "--suppress-health-check", "all",
-            "--generation-database", "none", "--no-color", "-c", "not_a_server_error"]
+            "--no-color", "-c", "not_a_server_error"] + ([] if run.get("deterministic") else ["--generation-database", "none"])
     if run.get("unexpected_methods"):
         args += ["--experimental", "coverage-phase", "--experimental-coverage-unexpected-methods", ",".join(run["unexpected_methods"])]
     if run.get("unique_inputs"):
